@@ -14,6 +14,7 @@ import (
 // ---- C02: only authentic, unmodified data messages of this session are delivered ----
 
 type c02run struct {
+	resent int // texts that came back marked as resent and were checked against what the sender passed to Send
 	s       *Sess
 	o       *sim.Outcome
 	hits    int // non-trivial attacks performed
@@ -37,6 +38,7 @@ func (r *c02run) genuine(c *sim.Call) {
 	if bytes.HasPrefix(c.Plain, []byte("[resent] ")) && r.allSent[1-c.Who][txt[9:]] {
 		// the library's resend feature; what may be resent is judged under C18
 		r.o.Class("resent-seen")
+		r.resent++
 		return
 	}
 	r.o.Fail("C02/foreign-plaintext", "%s returned plaintext %.60q while encrypted, which the peer never sent in this session", p.Name, txt)
@@ -511,7 +513,7 @@ func runC02(sc *SessScript) *sim.Outcome {
 			}
 		}
 	}
-	o.NonTrivial = r.hits > 0
+	o.NonTrivial = r.hits > 0 || r.resent > 0
 	if sc.Cfg.V == 2 {
 		o.Class("v2")
 	} else {
@@ -611,3 +613,33 @@ func TestProp_C02_Sweep(t *testing.T) {
 	}
 	sim.MarkCompleted("C02sweep", true)
 }
+
+// TestProp_C02_Resent: for every text length in a range, the text is sent, the peer's client reports it unreadable,
+// the parties re-key inside the session and the library sends its last message once more: what comes out of the
+// peer's Receive must be "[resent] " followed by exactly the text that was passed to Send (buffer sizes round up to
+// allocator classes, so whether a remembered text shares memory with something written later depends on its length).
+func TestProp_C02_Resent(t *testing.T) {
+	si, sn := sim.Shard()
+	idx := 0
+	max, per := 900, 10
+	if sim.Thorough() {
+		max = 4200
+	}
+	for _, v := range []int{3, 2} {
+		for from := 0; from < max; from += per {
+			idx++
+			if idx%sn != si {
+				continue
+			}
+			sc := &SessScript{Cfg: SessCfg{V: v, SeedA: 2400, SeedB: 2501, KeyA: 0, KeyB: 3}}
+			for l := from; l < from+per; l++ {
+				w := l & 1
+				sc.Ops = append(sc.Ops, SOp{K: "send", W: w, L: l, F: l % 5}, SOp{K: "flush"}, SOp{K: "complain", W: w, I: (l >> 1) & 1})
+			}
+			sim.Judge(t, "C02resent", sc)
+		}
+	}
+	sim.MarkCompleted("C02resent", true)
+}
+
+func init() { reg("C02resent", runC02) }
